@@ -319,7 +319,7 @@ def run(ctx):
 
     res = Result()
     rng = ctx.rng('race')
-    for i in range(ctx.n(64, 1600)):
+    for i in range(ctx.n(64, 8000)):
         case = {'kind': 'submit-race', 'n_own': rng.choice([50, 400, 1500]),
                 'n_new': 4000, 'delay': rng.choice([0.0005, 0.002, 0.005]),
                 'final': rng.choice([rps.FAILED, rps.DONE, rps.CANCELED])}
@@ -330,7 +330,7 @@ def run(ctx):
 
     rng = ctx.rng('cases')
 
-    for i in range(ctx.n(6000, 200000)):
+    for i in range(ctx.n(6000, 1500000)):
         case = gen_case(rng)
         res.evaluations += 1
         bound = {t['pilot'] for t in case['tasks'] if t['pilot']}
